@@ -2366,6 +2366,671 @@ Section Sem.
       Transparent exec exec_list exec_handlers rexec rexec_list rexec_handlers.
     End Refinement.
 
+    (* ================================================================ transparency of the reference semantics
+       With analyses whose hooks return nothing, the reference semantics of a source program behaves as the plain
+       semantics of that program: same outcome, world, globals, frames and handled-exception stack; only the
+       engine state (deliveries, coverage) differs.  Together with the refinement theorem: execution transparency
+       of the instrumented program. *)
+    Section Transparency.
+      Hypothesis observing_all : Forall (observing earg) analyses.
+      (* building a list is not a program-visible effect, and tuple(list) is the tuple of the elements *)
+      Variable mkl : list val -> val.
+      Hypothesis mklist_pure : forall l w0, p_mklist l w0 = (mkl l, w0).
+      Hypothesis tuple_of_list_spec : forall l w0, p_tuple_of_list (mkl l) w0 = p_mktuple l w0.
+      (* the truth of a boolean is that boolean, without effect *)
+      Hypothesis truth_bool : forall b w0, p_truth (p_const (KBool b)) w0 = (POk b, w0).
+
+      (* the callee semantics of the plain side *)
+      Variable callo : nat -> list val -> M val.
+
+      Definition beq (s1 s2 : st) : Prop :=
+        w s1 = w s2 /\ genv s1 = genv s2 /\ frames s1 = frames s2 /\ excs s1 = excs s2.
+      Definition rres {A B} (R : A -> B -> Prop) (r1 : res A) (r2 : res B) : Prop :=
+        match r1, r2 with
+        | Ok a, Ok b => R a b
+        | Exc e, Exc e' => e = e'
+        | Brk, Brk => True | Cnt, Cnt => True
+        | Ret v, Ret v' => v = v'
+        | Fuel, Fuel => True
+        | Stuck y, Stuck y' => y = y'
+        | _, _ => False
+        end.
+      Definition sim {A B} (R : A -> B -> Prop) (m1 : M A) (m2 : M B) : Prop :=
+        forall s1 s2, beq s1 s2 -> rres R (fst (m1 s1)) (fst (m2 s2)) /\ beq (snd (m1 s1)) (snd (m2 s2)).
+      (* a computation that only talks to the engine *)
+      Definition quiet {A} (m : M A) (a : A) : Prop := forall s, fst (m s) = Ok a /\ beq (snd (m s)) s.
+
+      Hypothesis Hcallo : forall f a, sim eq (call f a) (callo f a).
+
+      Lemma beq_refl s : beq s s. Proof. repeat split. Qed.
+      Lemma beq_sym s1 s2 : beq s1 s2 -> beq s2 s1.
+      Proof. intros [A [B [C D0]]]. repeat split; symmetry; assumption. Qed.
+      Lemma beq_trans s1 s2 s3 : beq s1 s2 -> beq s2 s3 -> beq s1 s3.
+      Proof. intros [A [B [C D0]]] [A' [B' [C' D']]]. repeat split; etransitivity; eassumption. Qed.
+
+      Lemma sim_ret {A B} (R : A -> B -> Prop) a b : R a b -> sim R (ret a) (ret b).
+      Proof. intros HR s1 s2 Hb. split; [exact HR|exact Hb]. Qed.
+
+      Lemma sim_bind {A B C D0} (R : A -> B -> Prop) (Q : C -> D0 -> Prop) m1 m2 k1 k2 :
+        sim R m1 m2 -> (forall a b, R a b -> sim Q (k1 a) (k2 b)) -> sim Q (bind m1 k1) (bind m2 k2).
+      Proof.
+        intros Hm Hk s1 s2 Hb. unfold bind. specialize (Hm s1 s2 Hb).
+        destruct (m1 s1) as [r1 s1'], (m2 s2) as [r2 s2']. cbn [fst snd] in Hm. destruct Hm as [Hr Hs].
+        destruct r1, r2; cbn [rres] in Hr; try contradiction; try (split; [exact Hr|exact Hs]).
+        apply Hk; assumption.
+      Qed.
+
+      Lemma sim_quiet_l {A B C} (R : B -> C -> Prop) (m : M A) a k m2 :
+        quiet m a -> sim R (k a) m2 -> sim R (bind m k) m2.
+      Proof.
+        intros Hq Hk s1 s2 Hb. unfold bind. specialize (Hq s1). destruct (m s1) as [r s1']. cbn [fst snd] in Hq.
+        destruct Hq as [-> Hs]. apply Hk. eapply beq_trans; eassumption.
+      Qed.
+
+      Lemma sim_quiet_only {A B} (R : A -> B -> Prop) (m : M A) a b : quiet m a -> R a b -> sim R m (ret b).
+      Proof.
+        intros Hq HR s1 s2 Hb. specialize (Hq s1). destruct (m s1) as [r s1']. cbn [fst snd] in *. destruct Hq as [-> Hs].
+        split; [exact HR|eapply beq_trans; eassumption].
+      Qed.
+      Lemma quiet_ret {A} (a : A) : quiet (ret a) a.
+      Proof. intros s. split; [reflexivity|apply beq_refl]. Qed.
+      Lemma quiet_bind {A B} (m : M A) a (k : A -> M B) b : quiet m a -> quiet (k a) b -> quiet (bind m k) b.
+      Proof.
+        intros Hm Hk s. unfold bind. specialize (Hm s). destruct (m s) as [r s']. cbn [fst snd] in Hm. destruct Hm as [-> Hs].
+        specialize (Hk s'). destruct Hk as [E Hs']. split; [exact E|eapply beq_trans; eassumption].
+      Qed.
+
+      Lemma quiet_notify f args : quiet (notify f args) None.
+      Proof.
+        Transparent notify. intros s. unfold notify.
+        pose proof (call_if_exists_observing earg e_filt_str e_as_path e_is_iid line_of analyses f args (eng s) observing_all) as E.
+        destruct (call_if_exists earg e_filt_str e_as_path e_is_iid line_of analyses f args (eng s)) as [r e']. cbn [fst] in E. subst r.
+        split; [reflexivity|repeat split]. Opaque notify.
+      Qed.
+      Lemma quiet_ev f n args : quiet (ev f n args) None.
+      Proof. Transparent ev. unfold ev. Opaque ev. apply quiet_notify. Qed.
+      Lemma quiet_RE n : quiet (RE n) tt.
+      Proof. Transparent RE. unfold RE. Opaque RE. eapply quiet_bind; [apply quiet_ev|apply quiet_ret]. Qed.
+      Lemma quiet_CF n : quiet (CF n) tt.
+      Proof. Transparent CF. unfold CF. Opaque CF. eapply quiet_bind; [apply quiet_ev|apply quiet_ret]. Qed.
+      Lemma quiet_announce on cf n : quiet (announce on cf n) tt.
+      Proof.
+        Transparent announce. unfold announce. Opaque announce.
+        destruct on; [|apply quiet_ret]. eapply quiet_bind; [apply quiet_RE|]. destruct cf; [apply quiet_CF|apply quiet_ret].
+      Qed.
+
+      (* operations that read and write the program-visible state only *)
+      Lemma sim_prim {A} (p : world -> pres A * world) : sim eq (prim p) (prim p).
+      Proof.
+        Transparent prim. intros s1 s2 [Hw [Hg [Hf He]]]. unfold prim. rewrite Hw. destruct (p (w s2)) as [r w'].
+        destruct r; (split; [reflexivity|repeat split; assumption]). Opaque prim.
+      Qed.
+      Lemma sim_prim_total {A} (p : world -> A * world) : sim eq (prim_total p) (prim_total p).
+      Proof.
+        Transparent prim_total. intros s1 s2 [Hw [Hg [Hf He]]]. unfold prim_total. rewrite Hw. destruct (p (w s2)) as [r w'].
+        split; [reflexivity|repeat split; assumption]. Opaque prim_total.
+      Qed.
+      Lemma sim_raise {A B} (R : A -> B -> Prop) e : sim R (raise e) (raise e).
+      Proof. intros s1 s2 Hb. split; [reflexivity|exact Hb]. Qed.
+      Lemma sim_raise_builtin {A B} (R : A -> B -> Prop) cls msg : sim R (raise_builtin cls msg) (raise_builtin cls msg).
+      Proof.
+        Transparent raise_builtin. unfold raise_builtin. Opaque raise_builtin.
+        eapply sim_bind; [apply sim_prim_total|]. intros a b ->. apply sim_raise.
+      Qed.
+      Lemma sim_stuck {A B} (R : A -> B -> Prop) y : sim R (stuck y) (stuck y).
+      Proof. intros s1 s2 Hb. split; [reflexivity|exact Hb]. Qed.
+      Lemma sim_reraise {A B} (R : A -> B -> Prop) (r1 : res A) (r2 : res B) : rres R r1 r2 -> sim R (reraise r1) (reraise r2).
+      Proof. intros Hr s1 s2 Hb. split; [exact Hr|exact Hb]. Qed.
+      Lemma sim_lookup x : sim eq (lookup x) (lookup x).
+      Proof.
+        Transparent lookup. intros s1 s2 Hb. pose proof Hb as [Hw [Hg [Hf He]]]. unfold lookup. rewrite Hg, Hf.
+        assert (HN : forall c m, rres eq (fst (@raise_builtin val c m s1)) (fst (@raise_builtin val c m s2))
+                                /\ beq (snd (@raise_builtin val c m s1)) (snd (@raise_builtin val c m s2))).
+        { intros c m. apply (sim_raise_builtin eq c m s1 s2 Hb). }
+        destruct (frames s2) as [|fr rest].
+        - destruct (alookup x (genv s2)); [split; [reflexivity|exact Hb]|apply HN].
+        - destruct (mem_str x (lnames fr)).
+          + destruct (alookup x (locals fr)); [split; [reflexivity|exact Hb]|apply HN].
+          + destruct (alookup x (genv s2)); [split; [reflexivity|exact Hb]|apply HN].
+        Opaque lookup.
+      Qed.
+      Lemma sim_assign x v : sim eq (assign x v) (assign x v).
+      Proof.
+        intros s1 s2 [Hw [Hg [Hf He]]]. unfold assign. rewrite Hf.
+        destruct (frames s2) as [|fr rest]; [|destruct (mem_str x (lnames fr))];
+          (split; [reflexivity|repeat split; cbn; congruence]).
+      Qed.
+      Lemma sim_unbind x : sim eq (unbind x) (unbind x).
+      Proof.
+        intros s1 s2 [Hw [Hg [Hf He]]]. unfold unbind. rewrite Hf.
+        destruct (frames s2) as [|fr rest]; [|destruct (mem_str x (lnames fr))];
+          (split; [reflexivity|repeat split; cbn; congruence]).
+      Qed.
+      Lemma sim_push_exc e : sim eq (push_exc e) (push_exc e).
+      Proof. intros s1 s2 [Hw [Hg [Hf He]]]. split; [reflexivity|repeat split; cbn; congruence]. Qed.
+      Lemma sim_pop_exc : sim eq pop_exc pop_exc.
+      Proof. intros s1 s2 [Hw [Hg [Hf He]]]. split; [reflexivity|repeat split; cbn; congruence]. Qed.
+      Lemma sim_cur_exc : sim eq cur_exc cur_exc.
+      Proof. intros s1 s2 Hb. pose proof Hb as [Hw [Hg [Hf He]]]. unfold cur_exc. cbn. rewrite He. split; [reflexivity|exact Hb]. Qed.
+      Lemma sim_truth v : sim eq (truth v) (truth v).
+      Proof. Transparent truth. unfold truth. Opaque truth. apply sim_prim. Qed.
+      Lemma sim_catch {A B} (R : A -> B -> Prop) m1 m2 : sim R m1 m2 -> sim (rres R) (catch m1) (catch m2).
+      Proof.
+        intros Hm s1 s2 Hb. unfold catch. specialize (Hm s1 s2 Hb).
+        destruct (m1 s1) as [r1 s1'], (m2 s2) as [r2 s2']. cbn [fst snd] in Hm. destruct Hm as [Hr Hs].
+        destruct r1, r2; cbn [rres] in Hr; try contradiction; (split; [cbn; try exact Hr; try exact I|exact Hs]).
+      Qed.
+      Lemma sim_const {A B} (R : A -> B -> Prop) (r1 : res A) (r2 : res B) : rres R r1 r2 ->
+        sim R (fun s => (r1, s)) (fun s => (r2, s)).
+      Proof. intros Hr s1 s2 Hb. split; [exact Hr|exact Hb]. Qed.
+
+      (* a left computation followed by quiet reporting that hands its value on *)
+      Lemma sim_bind_l {A B C} (R' : A -> B -> Prop) (R : C -> B -> Prop) m1 m2 k :
+        sim R' m1 m2 -> (forall a b, R' a b -> sim R (k a) (ret b)) -> sim R (bind m1 k) m2.
+      Proof.
+        intros Hm Hk s1 s2 Hb. unfold bind. specialize (Hm s1 s2 Hb).
+        destruct (m1 s1) as [r1 s1'] eqn:E1. destruct (m2 s2) as [r2 s2'] eqn:E2. cbn [fst snd] in Hm. destruct Hm as [Hr Hs].
+        destruct r1, r2; cbn [rres] in Hr; try contradiction; try (split; [exact Hr|exact Hs]).
+        specialize (Hk a a0 Hr s1' s2' Hs). cbn [ret fst snd] in Hk. exact Hk.
+      Qed.
+
+      Ltac q1 := first [ apply (sim_quiet_l _ _ tt); [first [apply quiet_announce|apply quiet_RE|apply quiet_CF]|]
+                       | apply (sim_quiet_l _ _ None); [first [apply quiet_ev|apply quiet_notify]|] ]; cbv beta.
+      Ltac qs := repeat q1.
+      Tactic Notation "sb" tactic3(t) := (eapply sim_bind; [t|intros ? ? ?; try subst]).
+      Tactic Notation "sl" tactic3(t) := (eapply sim_bind_l; [t|intros ? ? ?; try subst]).
+
+      Definition tvr (vt : val * bool) (t : bool) : Prop := snd vt = t.
+
+      Lemma sim_meq_l {A B} (R : A -> B -> Prop) m m' m2 : meq m m' -> sim R m' m2 -> sim R m m2.
+      Proof. intros E Hs s1 s2 Hb. rewrite (E s1). apply Hs; exact Hb. Qed.
+      Lemma sim_meq_r {A B} (R : A -> B -> Prop) m m2 m2' : meq m2 m2' -> sim R m m2' -> sim R m m2.
+      Proof. intros E Hs s1 s2 Hb. rewrite (E s2). apply Hs; exact Hb. Qed.
+      Ltac stop := repeat match goal with
+        | |- sim _ (bind (bind ?m ?k) ?h) _ => eapply sim_meq_l; [apply bind_assoc|]; cbv beta
+        | |- sim _ (bind (ret ?a) ?k) _ => eapply sim_meq_l; [apply bind_ret_l|]; cbv beta
+        | |- sim _ _ (bind (bind ?m ?k) ?h) => eapply sim_meq_r; [apply bind_assoc|]; cbv beta
+        | |- sim _ _ (bind (ret ?a) ?k) => eapply sim_meq_r; [apply bind_ret_l|]; cbv beta
+        end.
+      Ltac qs ::= repeat (stop; q1); stop.
+      Lemma sim_ret_wrap {A B} (R : A -> B -> Prop) m m2 : sim R (bind m (fun a => ret a)) (bind m2 (fun b => ret b)) -> sim R m m2.
+      Proof. intros Hs. eapply sim_meq_l; [symmetry; apply bind_ret_r|]. eapply sim_meq_r; [symmetry; apply bind_ret_r|]. exact Hs. Qed.
+      Lemma eval_test_nonjumpy t : jumpy t = false -> eval_test callo t = bind (eval callo t) (fun v => truth v).
+      Proof. intros J. rewrite eval_test_unfold. destruct t; try discriminate J; try (destruct o; try discriminate J); reflexivity. Qed.
+
+      (* a covered test: goal  sim R (bind X K) (bind (eval_test callo t) K')  where X computes the tested value (and,
+         for a jump-compiled test, its truth), K reports it quietly and decides; leaves  sim R (Kc b) (K' b) *)
+      Ltac test_tac t c T1 T2 :=
+        let J := fresh "J" in
+        destruct (jumpy t) eqn:J;
+        [ eapply sim_bind with (R := fun xt t0 => snd xt = Some t0);
+          [ sl (exact T2); apply sim_ret; cbn [snd]; unfold tvr in *; congruence
+          | let xt := fresh "xt" in let b0 := fresh "b0" in let Hx := fresh "Hx" in
+            intros xt b0 Hx; qs; rewrite Hx; cbn [fst snd]; stop ]
+        | rewrite (eval_test_nonjumpy t J); stop; sb (exact T1); stop; qs; cbn [fst snd sel3]; sb (apply sim_truth) ].
+
+      (* a test that is not compiled to jumps: its value, then the truth of the value *)
+      Lemma tv_default c e : jumpy e = false -> sim eq (reval c e) (eval callo e) -> sim tvr (reval_tv c e) (eval_test callo e).
+      Proof.
+        intros Hj E. rewrite reval_tv_unfold, eval_test_unfold. rewrite <- reval_unfold.
+        destruct e; try discriminate Hj; try (destruct o; try discriminate Hj);
+          (sb (exact E); sl (apply sim_truth); apply sim_ret; reflexivity).
+      Qed.
+
+      Ltac qq := repeat first [ apply quiet_ret | eapply quiet_bind; [first [apply quiet_announce|apply quiet_RE|apply quiet_CF|apply quiet_ev|apply quiet_notify|apply quiet_ret]|] ].
+      Lemma rnot_quiet n v t : quiet (rnot_events n v t) (p_const (KBool (negb t)), negb t).
+      Proof.
+        Transparent rnot_events. unfold rnot_events. Opaque rnot_events.
+        eapply quiet_bind; [apply quiet_announce|]. destruct (cov_us (snake (unop_cls UNot))); qq.
+      Qed.
+
+      Lemma mklist_ret l : meq (prim_total (p_mklist l)) (ret (mkl l)).
+      Proof.
+        Transparent prim_total. intros s. unfold prim_total, ret. rewrite mklist_pure. unfold set_w. destruct s; reflexivity. Opaque prim_total.
+      Qed.
+      Lemma tuple_meq l : meq (prim_total (p_tuple_of_list (mkl l))) (prim_total (p_mktuple l)).
+      Proof.
+        Transparent prim_total. intros s. unfold prim_total. rewrite tuple_of_list_spec. reflexivity. Opaque prim_total.
+      Qed.
+      Lemma quiet_mklist l : quiet (bind (prim_total (p_mklist l)) (fun _ => ret tt)) tt.
+      Proof. intros s. rewrite (bind_cong _ _ _ _ (mklist_ret l) (fun _ => meq_refl _) s). split; [reflexivity|apply beq_refl]. Qed.
+      Lemma tuple_via_list vs n :
+        sim eq (bind (prim_total (p_mklist vs)) (fun v => bind (announce true false n) (fun _ =>
+                bind (prim_total (p_tuple_of_list v)) (fun tv => bind (ev "literal" n [AV tv]) (fun _ =>
+                bind (ev "_tuple" n [AV v; AV tv]) (fun r => ret (sel2 r tv)))))))
+               (prim_total (p_mktuple vs)).
+      Proof.
+        eapply sim_meq_l; [apply bind_cong; [apply mklist_ret|intros v; apply meq_refl]|]. stop. qs.
+        eapply sim_meq_l; [apply bind_cong; [apply tuple_meq|intros v; apply meq_refl]|].
+        sl (apply sim_prim_total). qs. apply sim_ret. reflexivity.
+      Qed.
+
+      Theorem transp_expr :
+        (forall e, src_e e = true -> forall c, sim eq (reval c e) (eval callo e) /\ sim tvr (reval_tv c e) (eval_test callo e))
+        /\ (forall es, src_es es = true -> forall c, sim eq (reval_list c es) (eval_list callo es))
+        /\ (forall r, src_c r = true -> forall c n on ann first l, sim eq (reval_cmps c n on ann first l r) (eval_cmps callo l r))
+        /\ (forall r : rcmps, True).
+      Proof.
+        apply expr_all_ind; try (intros; discriminate); try (intros; exact I).
+        - (* EConst *) intros n k _ c.
+          assert (E : sim eq (reval c (EConst n k)) (eval callo (EConst n k))).
+          { rewrite reval_unfold, eval_unfold. cbn [reval_body eval_body]. destruct (const_cov c k); qs; apply sim_ret; reflexivity. }
+          split; [exact E|apply tv_default; [reflexivity|exact E]].
+        - (* EName *) intros n x b _ c.
+          assert (E : sim eq (reval c (EName n x b)) (eval callo (EName n x b))).
+          { rewrite reval_unfold, eval_unfold. cbn [reval_body eval_body]. destruct (name_cov c x b); [|apply sim_lookup].
+            qs. sl (apply sim_lookup). qs. apply sim_ret. reflexivity. }
+          split; [exact E|apply tv_default; [reflexivity|exact E]].
+        - (* EUn *) intros n o a IHa Hs c. simpl in Hs. destruct (IHa Hs c) as [A1 A2].
+          assert (E : sim eq (reval c (EUn n o a)) (eval callo (EUn n o a))).
+          { rewrite reval_unfold, eval_unfold. cbn [reval_body eval_body]. destruct o.
+            1,2,4: (sb (exact A1); qs; sl (apply sim_prim);
+                    match goal with |- context [if ?b then _ else _] => destruct b end; qs; apply sim_ret; reflexivity).
+            sb (exact A2). unfold tvr in *. subst. eapply sim_quiet_l; [apply rnot_quiet|]. apply sim_ret. reflexivity. }
+          split; [exact E|]. destruct o; try (apply tv_default; [reflexivity|exact E]).
+          rewrite reval_tv_unfold, eval_test_unfold. sb (exact A2). unfold tvr in *. subst.
+          eapply sim_quiet_only; [apply rnot_quiet|reflexivity].
+        - (* EBin *) intros n o a IHa b IHb Hs c. simpl in Hs. apply andb_true_iff in Hs; destruct Hs as [Hs1 Hs2].
+          destruct (IHa Hs1 (rc_str c)) as [A1 A2]. destruct (IHb Hs2 (rc_str c)) as [B1 B2].
+          assert (E : sim eq (reval c (EBin n o a b)) (eval callo (EBin n o a b))).
+          { rewrite reval_unfold, eval_unfold. cbn [reval_body eval_body]. qs. sb (exact A1). sb (exact B1). sl (apply sim_prim).
+            destruct (cov (snake (binop_cls o))); qs; apply sim_ret; reflexivity. }
+          split; [exact E|apply tv_default; [reflexivity|exact E]].
+        - (* EBool *) intros n o a IHa b IHb Hs c. simpl in Hs. apply andb_true_iff in Hs; destruct Hs as [Hs1 Hs2].
+          destruct (IHa Hs1 c) as [A1 A2]. destruct (IHb Hs2 c) as [B1 B2]. split.
+          + rewrite reval_unfold, eval_unfold. cbn [reval_body eval_body]. qs. sb (exact A1). sb (apply sim_truth).
+            destruct (match o with BAnd => b1 | BOr => negb b1 end).
+            * sl (exact B1). destruct (cov_us (snake (boolop_cls o))); qs; apply sim_ret; reflexivity.
+            * destruct (cov_us (snake (boolop_cls o))); qs; apply sim_ret; reflexivity.
+          + rewrite reval_tv_unfold, eval_test_unfold. cbv zeta. destruct o.
+            * qs. sb (exact A2). destruct a0 as [l t]. unfold tvr in *. cbn [snd] in *. subst. destruct b0.
+              -- sl (exact B2). destruct a0 as [r tr0]. unfold tvr in *. cbn [snd] in *. subst.
+                 destruct (cov_us (snake (boolop_cls BAnd))); qs; apply sim_ret; reflexivity.
+              -- destruct (cov_us (snake (boolop_cls BAnd))); qs; apply sim_ret; reflexivity.
+            * qs. sb (exact A2). destruct a0 as [l t]. unfold tvr in *. cbn [snd] in *. subst. destruct b0; cbn [negb].
+              -- destruct (cov_us (snake (boolop_cls BOr))); qs; apply sim_ret; reflexivity.
+              -- sl (exact B2). destruct a0 as [r tr0]. unfold tvr in *. cbn [snd] in *. subst.
+                 destruct (cov_us (snake (boolop_cls BOr))); qs; apply sim_ret; reflexivity.
+        - (* ECmp *) intros n a IHa r IHr Hs c. simpl in Hs. apply andb_true_iff in Hs; destruct Hs as [Hs1 Hs2].
+          destruct (IHa Hs1 c) as [A1 A2]. specialize (IHr Hs2 c).
+          assert (E : sim eq (reval c (ECmp n a r)) (eval callo (ECmp n a r))).
+          { rewrite reval_unfold, eval_unfold. cbn [reval_body eval_body]. sb (exact A1). apply IHr. }
+          split; [exact E|apply tv_default; [reflexivity|exact E]].
+        - (* EIfExp *) intros n t IHt a IHa b IHb Hs c. simpl in Hs. apply andb_true_iff in Hs; destruct Hs as [Hs12 Hs3].
+          apply andb_true_iff in Hs12; destruct Hs12 as [Hs1 Hs2].
+          destruct (IHt Hs1 c) as [T1 T2]. destruct (IHa Hs2 c) as [A1 A2]. destruct (IHb Hs3 c) as [B1 B2]. split.
+          + rewrite reval_unfold, eval_unfold. cbn [reval_body eval_body]. destruct (cov "enter_if" || cov "exit_if").
+            * test_tac t c T1 T2; (match goal with |- sim _ _ (if ?bb then _ else _) => destruct bb end; [sl (exact A1)|sl (exact B1)]; qs; apply sim_ret; reflexivity).
+            * sb (exact T2). unfold tvr in *. subst. destruct (snd a0); assumption.
+          + rewrite reval_tv_unfold, eval_test_unfold. cbv zeta. destruct (cov "enter_if" || cov "exit_if").
+            * rewrite <- reval_unfold. test_tac t c T1 T2; (match goal with |- sim _ _ (if ?bb then _ else _) => destruct bb end; [sl (exact A2)|sl (exact B2)]; qs; apply sim_ret; assumption).
+            * sb (exact T2). unfold tvr in *. subst. destruct (snd a0); assumption.
+        - (* EAttr *) intros n a IHa x Hs c. simpl in Hs. destruct (IHa Hs c) as [A1 A2].
+          assert (E : sim eq (reval c (EAttr n a x)) (eval callo (EAttr n a x))).
+          { rewrite reval_unfold, eval_unfold. cbn [reval_body eval_body]. sb (exact A1). qs. sl (apply sim_prim).
+            destruct (cov "read_attribute" && negb (r_tgt c)); qs; apply sim_ret; reflexivity. }
+          split; [exact E|apply tv_default; [reflexivity|exact E]].
+        - (* ESub *) intros n a IHa i IHi Hs c. simpl in Hs. apply andb_true_iff in Hs; destruct Hs as [Hs1 Hs2].
+          destruct (IHa Hs1 c) as [A1 A2]. destruct (IHi Hs2 c) as [I1 I2].
+          assert (E : sim eq (reval c (ESub n a i)) (eval callo (ESub n a i))).
+          { rewrite reval_unfold, eval_unfold. cbn [reval_body eval_body]. sb (exact A1). sb (exact I1).
+            destruct (cov "read_subscript" && negb (r_tgt c)).
+            - eapply sim_quiet_l with (a := tt); [|cbv beta; qs; sl (apply sim_prim); qs; apply sim_ret; reflexivity].
+              apply quiet_mklist.
+            - stop. qs. sl (apply sim_prim). apply sim_ret; reflexivity. }
+          split; [exact E|apply tv_default; [reflexivity|exact E]].
+        - (* ECall *) intros n f IHf args IHargs Hs c. simpl in Hs. apply andb_true_iff in Hs; destruct Hs as [Hs1 Hs2].
+          destruct (IHf Hs1 c) as [F1 F2]. specialize (IHargs Hs2 (rc_str c)).
+          assert (HC : forall fv vs, sim eq (r_do_call fv vs) (do_call callo fv vs)).
+          { intros fv vs. unfold r_do_call, do_call. destruct (as_fun fv); [apply Hcallo|apply sim_prim]. }
+          assert (E : sim eq (reval c (ECall n f args)) (eval callo (ECall n f args))).
+          { rewrite reval_unfold, eval_unfold. cbn [reval_body eval_body]. sb (exact F1). sb (exact IHargs).
+            destruct (cov "pre_call" || cov "post_call"); [|apply HC]. qs. sl (apply HC). qs. apply sim_ret; reflexivity. }
+          split; [exact E|apply tv_default; [reflexivity|exact E]].
+        - (* EList *) intros n es IHes Hs c. simpl in Hs. specialize (IHes Hs c).
+          assert (E : sim eq (reval c (EList n es)) (eval callo (EList n es))).
+          { rewrite reval_unfold, eval_unfold. cbn [reval_body eval_body]. sb (exact IHes). sl (apply sim_prim_total).
+            destruct (cov "_list" && negb (r_tgt c)); qs; apply sim_ret; reflexivity. }
+          split; [exact E|apply tv_default; [reflexivity|exact E]].
+        - (* ETuple *) intros n es IHes Hs c. simpl in Hs. specialize (IHes Hs c).
+          assert (E : sim eq (reval c (ETuple n es)) (eval callo (ETuple n es))).
+          { rewrite reval_unfold, eval_unfold. cbn [reval_body eval_body]. sb (exact IHes).
+            destruct (cov "_tuple" && negb (r_tgt c)); [|apply sim_prim_total]. apply tuple_via_list. }
+          split; [exact E|apply tv_default; [reflexivity|exact E]].
+        - (* Enil *) intros _ c. apply sim_ret. reflexivity.
+        - (* Econs *) intros e IHe r IHr Hs c. simpl in Hs. apply andb_true_iff in Hs; destruct Hs as [Hs1 Hs2].
+          destruct (IHe Hs1 c) as [E1 E2]. specialize (IHr Hs2 c). rewrite reval_list_unfold, eval_list_unfold.
+          sb (exact E1). sb (exact IHr). apply sim_ret. reflexivity.
+        - (* Cnil *) intros _ c n on ann first l. apply sim_ret. reflexivity.
+        - (* Ccons *) intros o e IHe r IHr Hs c n on ann first l. simpl in Hs. apply andb_true_iff in Hs; destruct Hs as [Hs1 Hs2].
+          destruct (IHe Hs1 c) as [E1 E2]. specialize (IHr Hs2 c). rewrite reval_cmps_unfold, eval_cmps_unfold.
+          destruct r as [|o2 e2 r2].
+          + sb (exact E1). qs. sl (apply sim_prim). destruct on; stop; qs; apply sim_ret; reflexivity.
+          + sb (exact E1). qs. sb (apply sim_prim).
+            assert (Hv : sim eq (if on then
+                                   bind (ev "operation" n [AS (cmpop_cls o); AL [AV first; AV b]; AV b0]) (fun _ =>
+                                   bind (ev "comparison" n [AV l; AS (cmpop_cls o); AV b; AV b0]) (fun hi =>
+                                   bind (ev (snake (cmpop_cls o)) n [AV l; AV b; AV b0]) (fun lo => ret (sel3 lo hi b0))))
+                                 else ret b0) (ret b0)).
+            { destruct on; qs; apply sim_ret; reflexivity. }
+            apply sim_meq_r with (m2' := bind (ret b0) (fun v' => bind (truth v') (fun t => if t then eval_cmps callo b (Ccons o2 e2 r2) else ret v')));
+              [intros s; reflexivity|]. sb (exact Hv).
+            sb (apply sim_truth). destruct b2; [apply IHr|apply sim_ret; reflexivity].
+      Qed.
+
+      (* plain evaluation of a source expression under the two callee semantics (targets of augmented assignments) *)
+      Lemma plain_sim :
+        (forall e, src_e e = true -> sim eq (eval call e) (eval callo e) /\ sim eq (eval_test call e) (eval_test callo e))
+        /\ (forall es, src_es es = true -> sim eq (eval_list call es) (eval_list callo es))
+        /\ (forall r, src_c r = true -> forall l, sim eq (eval_cmps call l r) (eval_cmps callo l r))
+        /\ (forall r : rcmps, True).
+      Proof.
+        assert (Hdef : forall e, sim eq (eval call e) (eval callo e) ->
+                  sim eq (bind (eval call e) (fun v => truth v)) (bind (eval callo e) (fun v => truth v))).
+        { intros e E. sb (exact E). apply sim_truth. }
+        apply expr_all_ind; try (intros; discriminate); try (intros; exact I).
+        - intros n k _. split; [rewrite !eval_unfold; apply sim_ret; reflexivity|].
+          rewrite (eval_test_unfold call), (eval_test_unfold callo). apply Hdef. rewrite !eval_unfold; apply sim_ret; reflexivity.
+        - intros n x b _. split; [rewrite !eval_unfold; apply sim_lookup|].
+          rewrite (eval_test_unfold call), (eval_test_unfold callo). apply Hdef. rewrite !eval_unfold; apply sim_lookup.
+        - intros n o a IHa Hs. simpl in Hs. destruct (IHa Hs) as [A1 A2].
+          assert (E : sim eq (eval call (EUn n o a)) (eval callo (EUn n o a))).
+          { rewrite (eval_unfold call), (eval_unfold callo). cbn [eval_body]. destruct o; try (sb (exact A1); apply sim_prim).
+            sb (exact A2). apply sim_ret. reflexivity. }
+          split; [exact E|]. rewrite (eval_test_unfold call), (eval_test_unfold callo). destruct o; try (apply Hdef; exact E).
+          sb (exact A2). apply sim_ret. reflexivity.
+        - intros n o a IHa b IHb Hs. simpl in Hs. apply andb_true_iff in Hs; destruct Hs as [Hs1 Hs2].
+          destruct (IHa Hs1) as [A1 A2]. destruct (IHb Hs2) as [B1 B2].
+          assert (E : sim eq (eval call (EBin n o a b)) (eval callo (EBin n o a b))).
+          { rewrite (eval_unfold call), (eval_unfold callo). cbn [eval_body]. sb (exact A1). sb (exact B1). apply sim_prim. }
+          split; [exact E|]. rewrite (eval_test_unfold call), (eval_test_unfold callo). apply Hdef; exact E.
+        - intros n o a IHa b IHb Hs. simpl in Hs. apply andb_true_iff in Hs; destruct Hs as [Hs1 Hs2].
+          destruct (IHa Hs1) as [A1 A2]. destruct (IHb Hs2) as [B1 B2]. split.
+          + rewrite (eval_unfold call), (eval_unfold callo). cbn [eval_body]. sb (exact A1). sb (apply sim_truth).
+            destruct (match o with BAnd => b1 | BOr => negb b1 end); [exact B1|apply sim_ret; reflexivity].
+          + rewrite (eval_test_unfold call), (eval_test_unfold callo). destruct o; sb (exact A2); destruct b0; try assumption; apply sim_ret; reflexivity.
+        - intros n a IHa r IHr Hs. simpl in Hs. apply andb_true_iff in Hs; destruct Hs as [Hs1 Hs2].
+          destruct (IHa Hs1) as [A1 A2]. specialize (IHr Hs2).
+          assert (E : sim eq (eval call (ECmp n a r)) (eval callo (ECmp n a r))).
+          { rewrite (eval_unfold call), (eval_unfold callo). cbn [eval_body]. sb (exact A1). apply IHr. }
+          split; [exact E|]. rewrite (eval_test_unfold call), (eval_test_unfold callo). apply Hdef; exact E.
+        - intros n t IHt a IHa b IHb Hs. simpl in Hs. apply andb_true_iff in Hs; destruct Hs as [Hs12 Hs3].
+          apply andb_true_iff in Hs12; destruct Hs12 as [Hs1 Hs2].
+          destruct (IHt Hs1) as [T1 T2]. destruct (IHa Hs2) as [A1 A2]. destruct (IHb Hs3) as [B1 B2]. split.
+          + rewrite (eval_unfold call), (eval_unfold callo). cbn [eval_body]. sb (exact T2). destruct b0; assumption.
+          + rewrite (eval_test_unfold call), (eval_test_unfold callo). sb (exact T2). destruct b0; assumption.
+        - intros n a IHa x Hs. simpl in Hs. destruct (IHa Hs) as [A1 A2].
+          assert (E : sim eq (eval call (EAttr n a x)) (eval callo (EAttr n a x))).
+          { rewrite (eval_unfold call), (eval_unfold callo). cbn [eval_body]. sb (exact A1). apply sim_prim. }
+          split; [exact E|]. rewrite (eval_test_unfold call), (eval_test_unfold callo). apply Hdef; exact E.
+        - intros n a IHa i IHi Hs. simpl in Hs. apply andb_true_iff in Hs; destruct Hs as [Hs1 Hs2].
+          destruct (IHa Hs1) as [A1 A2]. destruct (IHi Hs2) as [I1 I2].
+          assert (E : sim eq (eval call (ESub n a i)) (eval callo (ESub n a i))).
+          { rewrite (eval_unfold call), (eval_unfold callo). cbn [eval_body]. sb (exact A1). sb (exact I1). apply sim_prim. }
+          split; [exact E|]. rewrite (eval_test_unfold call), (eval_test_unfold callo). apply Hdef; exact E.
+        - intros n f IHf args IHargs Hs. simpl in Hs. apply andb_true_iff in Hs; destruct Hs as [Hs1 Hs2].
+          destruct (IHf Hs1) as [F1 F2]. specialize (IHargs Hs2).
+          assert (E : sim eq (eval call (ECall n f args)) (eval callo (ECall n f args))).
+          { rewrite (eval_unfold call), (eval_unfold callo). cbn [eval_body]. sb (exact F1). sb (exact IHargs).
+            unfold do_call. destruct (as_fun b); [apply Hcallo|apply sim_prim]. }
+          split; [exact E|]. rewrite (eval_test_unfold call), (eval_test_unfold callo). apply Hdef; exact E.
+        - intros n es IHes Hs. simpl in Hs. specialize (IHes Hs).
+          assert (E : sim eq (eval call (EList n es)) (eval callo (EList n es))).
+          { rewrite (eval_unfold call), (eval_unfold callo). cbn [eval_body]. sb (exact IHes). apply sim_prim_total. }
+          split; [exact E|]. rewrite (eval_test_unfold call), (eval_test_unfold callo). apply Hdef; exact E.
+        - intros n es IHes Hs. simpl in Hs. specialize (IHes Hs).
+          assert (E : sim eq (eval call (ETuple n es)) (eval callo (ETuple n es))).
+          { rewrite (eval_unfold call), (eval_unfold callo). cbn [eval_body]. sb (exact IHes). apply sim_prim_total. }
+          split; [exact E|]. rewrite (eval_test_unfold call), (eval_test_unfold callo). apply Hdef; exact E.
+        - intros _. apply sim_ret. reflexivity.
+        - intros e IHe r IHr Hs. simpl in Hs. apply andb_true_iff in Hs; destruct Hs as [Hs1 Hs2].
+          destruct (IHe Hs1) as [E1 E2]. specialize (IHr Hs2). rewrite (eval_list_unfold call), (eval_list_unfold callo).
+          sb (exact E1). sb (exact IHr). apply sim_ret. reflexivity.
+        - intros _ l. apply sim_ret. reflexivity.
+        - intros o e IHe r IHr Hs l. simpl in Hs. apply andb_true_iff in Hs; destruct Hs as [Hs1 Hs2].
+          destruct (IHe Hs1) as [E1 E2]. specialize (IHr Hs2). rewrite (eval_cmps_unfold call), (eval_cmps_unfold callo).
+          destruct r as [|o2 e2 r2]; [sb (exact E1); apply sim_prim|].
+          sb (exact E1). sb (apply sim_prim). sb (apply sim_truth).
+          match goal with |- sim _ _ (if ?bb then _ else _) => destruct bb end; [apply IHr|apply sim_ret; reflexivity].
+      Qed.
+
+      Notation TE := (proj1 transp_expr).
+      Notation PE := (proj1 plain_sim).
+
+      (* guard of the transparency theorem: with the [exception] hook, a handler's type expression is evaluated a
+         second time for the payload of the event and the bound name is read (modelled in the reference semantics
+         as the implementation does it); this is invisible only for handlers without type and name *)
+      Definition bare_handler (ty : option expr) (name : option string) : bool := negb (is_some ty) && negb (is_some name).
+      Fixpoint tk_s (s : stmt) : bool :=
+        match s with
+        | SIf _ _ b o | SWhile _ _ b o | SFor _ _ _ b o => tk_ss b && tk_ss o
+        | STry _ b hs o f => tk_ss b && tk_hs hs && tk_ss o && tk_ss f
+        | _ => true
+        end
+      with tk_ss (ss : stmts) : bool := match ss with Snil => true | Scons s r => tk_s s && tk_ss r end
+      with tk_hs (hs : handlers) : bool :=
+        match hs with
+        | Hnil => true
+        | Hcons ty name b r => (negb (cov "exception") || bare_handler ty name) && tk_ss b && tk_hs r
+        end.
+
+      Lemma ropt_sim c o : src_oe o = true -> sim eq (reval_opt c o) (eval_opt callo o).
+      Proof.
+        destruct o as [e|]; intros Hs; [|apply sim_ret; reflexivity]. simpl in Hs. unfold reval_opt, eval_opt.
+        sb (exact (proj1 (TE e Hs c))). apply sim_ret. reflexivity.
+      Qed.
+      Lemma store_sim t v : src_t t = true -> sim eq (rstore t v) (store callo t v).
+      Proof.
+        destruct t as [x|n e x|n e i]; intros Hs; simpl in Hs; cbn [rstore store]; [apply sim_assign| |].
+        - sb (exact (proj1 (TE e Hs rc_tgt))). apply sim_prim.
+        - apply andb_true_iff in Hs; destruct Hs as [Hs1 Hs2].
+          sb (exact (proj1 (TE e Hs1 rc_tgt))). sb (exact (proj1 (TE i Hs2 rc_tgt))). apply sim_prim.
+      Qed.
+      Lemma store_all_sim ts v : forallb src_t ts = true -> sim eq (rstore_all ts v) (store_all callo ts v).
+      Proof.
+        induction ts as [|t r IH]; intros Hs; simpl in Hs; cbn [rstore_all store_all]; [apply sim_ret; reflexivity|].
+        apply andb_true_iff in Hs; destruct Hs as [Hs1 Hs2]. sb (exact (store_sim t v Hs1)). apply IH; exact Hs2.
+      Qed.
+      Lemma raug_quiet on n o l r v : quiet (raug_events on n o l r v) v.
+      Proof. Transparent raug_events. unfold raug_events. Opaque raug_events. destruct on; qq. Qed.
+      Lemma exit_event_quiet leaf on n : quiet (exit_event leaf on n) tt.
+      Proof. unfold exit_event. destruct on; qq. Qed.
+      Lemma for_exit_quiet n : quiet (for_exit n) tt.
+      Proof. unfold for_exit. qq. Qed.
+      Lemma truth_true : meq (truth (p_const (KBool true))) (ret true).
+      Proof.
+        Transparent truth prim. intros s. unfold truth, prim, ret. rewrite truth_bool. unfold set_w. destruct s; reflexivity. Opaque truth prim.
+      Qed.
+
+      Lemma src_not_gen e : src_e e = true ->
+        (match e with RGen _ inner => inner | _ => e end) = e /\ (match e with RGen n _ => Some n | _ => @None nid end) = None.
+      Proof. intros Hs. destruct e; try discriminate Hs; split; reflexivity. Qed.
+
+      (* a test in statement position: covered (test_value, the two notifications, decide) or not *)
+      Lemma stmt_test c leaf n (on : bool) :
+        src_e c = true ->
+        sim eq (if on then
+                  bind (test_value rc0 c) (fun vt =>
+                  bind (announce true true n) (fun _ =>
+                  bind (ev "enter_control_flow" n [AV (fst vt)]) (fun hi =>
+                  bind (ev leaf n [AV (fst vt)]) (fun lo => decide vt lo hi))))
+                else bind (reval_tv rc0 c) (fun ct => ret (snd ct)))
+               (eval_test callo c).
+      Proof.
+        intros Hs. destruct (TE c Hs rc0) as [T1 T2]. destruct on.
+        - unfold test_value, decide. apply sim_ret_wrap. stop.
+          test_tac c rc0 T1 T2; apply sim_ret; reflexivity.
+        - sl (exact T2). apply sim_ret. assumption.
+      Qed.
+
+      Ltac loop_tail IHj :=
+        match goal with
+        | Hr : rres _ ?ra ?rb |- _ =>
+          destruct ra as [[]| | | | | |], rb; cbn [rres] in Hr; try contradiction; subst;
+          try (apply sim_ret; reflexivity); try exact IHj; try (apply sim_reraise; cbn; auto)
+        end.
+
+      Theorem transp_stmt :
+        (forall s, src_s s = true -> tk_s s = true -> forall k, sim eq (rexec k s) (exec callo bound s))
+        /\ (forall ss, src_ss ss = true -> tk_ss ss = true -> forall k, sim eq (rexec_list k ss) (exec_list callo bound ss))
+        /\ (forall hs, src_hs hs = true -> tk_hs hs = true -> forall k tryn e,
+              sim eq (rexec_handlers k tryn e hs) (exec_handlers callo bound e hs)).
+      Proof.
+        apply stmt_all_ind.
+        - (* SExpr *) intros e Hs _ k. simpl in Hs. Transparent rexec exec. cbn [rexec exec]. Opaque rexec exec.
+          sb (exact (proj1 (TE e Hs rc0))). apply sim_ret. reflexivity.
+        - (* SAssign *) intros n ts e Hs _ k. simpl in Hs. apply andb_true_iff in Hs; destruct Hs as [Hs1 Hs2].
+          Transparent rexec exec. cbn [rexec exec]. Opaque rexec exec.
+          sb (exact (proj1 (TE e Hs2 (rc_str rc0)))).
+          destruct (cov "write"); qs; apply store_all_sim; assumption.
+        - (* SAug *) intros n t o e Hs _ k. simpl in Hs. apply andb_true_iff in Hs; destruct Hs as [Hs1 Hs2].
+          Transparent rexec exec. cbn [rexec exec]. Opaque rexec exec.
+          destruct t as [x|tn be x|tn be ie]; simpl in Hs1.
+          + sb (apply sim_lookup). sb (exact (proj1 (TE e Hs2 (rc_str rc0)))). sb (apply sim_prim).
+            eapply sim_quiet_l; [apply raug_quiet|]. apply sim_assign.
+          + sb (exact (proj1 (PE be Hs1))). sb (apply sim_prim). sb (exact (proj1 (TE e Hs2 (rc_str rc0)))). sb (apply sim_prim).
+            eapply sim_quiet_l; [apply raug_quiet|]. apply sim_prim.
+          + apply andb_true_iff in Hs1; destruct Hs1 as [Hb Hi].
+            sb (exact (proj1 (PE be Hb))). sb (exact (proj1 (PE ie Hi))). sb (apply sim_prim).
+            sb (exact (proj1 (TE e Hs2 (rc_str rc0)))). sb (apply sim_prim).
+            eapply sim_quiet_l; [apply raug_quiet|]. apply sim_prim.
+        - (* SIf *) intros n c body IHb orelse IHo Hs Hk k. simpl in Hs, Hk.
+          apply andb_true_iff in Hs; destruct Hs as [Hs12 Hs3]. apply andb_true_iff in Hs12; destruct Hs12 as [Hs1 Hs2].
+          apply andb_true_iff in Hk; destruct Hk as [Hk1 Hk2].
+          rewrite rexec_SIf, exec_SIf. sb (apply (stmt_test c "enter_if" n (cov "enter_if") Hs1)).
+          apply sim_meq_r with (m2' := bind (if b then exec_list callo bound body else exec_list callo bound orelse) (fun _ => ret tt)).
+          { symmetry. rewrite <- (bind_ret_r (if b then exec_list callo bound body else exec_list callo bound orelse)) at 2.
+            apply bind_cong; [reflexivity|intros []; reflexivity]. }
+          sb (destruct b; [apply IHb|apply IHo]; assumption).
+          apply sim_quiet_only with (a := tt); [apply exit_event_quiet|reflexivity].
+        - (* SWhile *) intros n c body IHb orelse IHo Hs Hk k. simpl in Hs, Hk.
+          apply andb_true_iff in Hs; destruct Hs as [Hs12 Hs3]. apply andb_true_iff in Hs12; destruct Hs12 as [Hs1 Hs2].
+          apply andb_true_iff in Hk; destruct Hk as [Hk1 Hk2].
+          rewrite rexec_SWhile, exec_SWhile.
+          assert (Hloop : forall j, sim eq (rwloop k n c body orelse j) (wloop callo c body orelse j)); [|apply Hloop].
+          induction j as [|j IHj]; [apply sim_const; exact I|]. cbn [rwloop wloop].
+          sb (apply (stmt_test c "enter_while" n (cov "enter_while") Hs1)). destruct b.
+          + sb (apply sim_catch; apply IHb; assumption).
+            loop_tail IHj.
+          + apply sim_meq_r with (m2' := bind (exec_list callo bound orelse) (fun _ => ret tt)).
+            { symmetry. rewrite <- (bind_ret_r (exec_list callo bound orelse)) at 2. apply bind_cong; [reflexivity|intros []; reflexivity]. }
+            sb (apply IHo; assumption). destruct (cov "normal_exit_while"); qs; apply sim_ret; reflexivity.
+        - (* SFor *) intros n x it body IHb orelse IHo Hs Hk k. simpl in Hs, Hk.
+          apply andb_true_iff in Hs; destruct Hs as [Hs12 Hs3]. apply andb_true_iff in Hs12; destruct Hs12 as [Hs1 Hs2].
+          apply andb_true_iff in Hk; destruct Hk as [Hk1 Hk2].
+          rewrite rexec_SFor, exec_SFor. destruct (src_not_gen it Hs1) as [G1 G2]. rewrite G1, G2.
+          sb (exact (proj1 (TE it Hs1 rc0))). sb (apply sim_prim).
+          assert (Hloop : forall j, sim eq (rfloop k n x b0 b body orelse j) (floop callo x None b0 b body orelse j)); [|apply Hloop].
+          induction j as [|j IHj]; [apply sim_const; exact I|]. cbn [rfloop floop]. unfold for_next.
+          sb (apply sim_prim).
+          assert (Hnx : sim eq (if cov "enter_for" then
+                                  bind (announce true true n) (fun _ =>
+                                  bind (ev "enter_control_flow" n [AB (match b1 with Some _ => true | None => false end)]) (fun hi =>
+                                  bind (ev "enter_for" n [match b1 with Some v => AV v | None => AO "StopIteration()" end; AV b]) (fun lo =>
+                                  match lo, hi with
+                                  | Some a, _ => ret (match b1 with Some _ => Some (arg_val a) | None => None end)
+                                  | None, Some _ => stuck "enter_control_flow override of a for loop: outside the model"
+                                  | None, None => ret b1
+                                  end)))
+                                else ret b1) (ret b1)).
+          { destruct (cov "enter_for"); qs; apply sim_ret; reflexivity. }
+          apply sim_meq_r with (m2' := bind (ret b1) (fun nx => match nx with
+                                  | None => exec_list callo bound orelse
+                                  | Some v => bind (assign x v) (fun _ => bind (catch (exec_list callo bound body)) (fun r =>
+                                      match r with Ok _ | Cnt => floop callo x None b0 b body orelse j | Brk => ret tt | other => reraise other end))
+                                  end)); [intros s; reflexivity|].
+          sb (exact Hnx). destruct b2 as [v|].
+          + sb (apply sim_assign). sb (apply sim_catch; apply IHb; assumption).
+            loop_tail IHj.
+          + eapply sim_quiet_l with (a := tt); [destruct (cov "enter_for"); [apply for_exit_quiet|apply quiet_ret]|]. cbv beta.
+            apply sim_meq_r with (m2' := bind (exec_list callo bound orelse) (fun _ => ret tt)).
+            { symmetry. rewrite <- (bind_ret_r (exec_list callo bound orelse)) at 2. apply bind_cong; [reflexivity|intros []; reflexivity]. }
+            sb (apply IHo; assumption).
+            apply sim_quiet_only with (a := tt); [|reflexivity].
+            destruct (negb (cov "enter_for") && cov "normal_exit_for"); [apply for_exit_quiet|apply quiet_ret].
+        - (* SBreak *) intros n _ _ k. Transparent rexec exec. cbn [rexec exec]. Opaque rexec exec. unfold rbrk.
+          destruct (r_loop k) as [[l ty]|]; [|apply sim_const; exact I].
+          destruct (cov "_break"); [|apply sim_const; exact I].
+          destruct ty; qs; cbn [sel2]; (eapply sim_meq_l; [apply bind_cong; [apply truth_true|intros t; apply meq_refl]| ]); stop; apply sim_const; exact I.
+        - (* SContinue *) intros n _ _ k. Transparent rexec exec. cbn [rexec exec]. Opaque rexec exec. unfold rbrk.
+          destruct (r_loop k) as [[l ty]|]; [|apply sim_const; exact I].
+          destruct (cov "_continue"); [|apply sim_const; exact I].
+          destruct ty; qs; cbn [sel2]; (eapply sim_meq_l; [apply bind_cong; [apply truth_true|intros t; apply meq_refl]| ]); stop; apply sim_const; exact I.
+        - (* SPass *) intros _ _ k. apply sim_ret. reflexivity.
+        - (* SAssert *) intros n c m Hs _ k. simpl in Hs. apply andb_true_iff in Hs; destruct Hs as [Hs1 Hs2].
+          Transparent rexec exec. cbn [rexec exec]. Opaque rexec exec.
+          destruct (TE c Hs1 rc0) as [T1 T2].
+          assert (Hfail : sim eq (bind (reval_opt rc0 m) (fun mv => bind (prim_total (p_assertion mv)) (fun e => @raise unit e)))
+                                 (bind (eval_opt callo m) (fun mv => bind (prim_total (p_assertion mv)) (fun e => @raise unit e)))).
+          { sb (exact (ropt_sim rc0 m Hs2)). sb (apply sim_prim_total). apply sim_raise. }
+          destruct (cov "_assert").
+          + unfold test_value, decide. destruct (jumpy c) eqn:J.
+            * eapply sim_bind with (R := fun xt t0 => snd xt = Some t0);
+                [sl (exact T2); apply sim_ret; cbn [snd]; unfold tvr in *; congruence|].
+              intros xt t0 Hx. qs. rewrite Hx. stop. destruct t0; [apply sim_ret; reflexivity|exact Hfail].
+            * rewrite (eval_test_nonjumpy c J). stop. sb (exact T1). stop. qs. cbn [fst snd sel3]. sb (apply sim_truth).
+              destruct b0; [apply sim_ret; reflexivity|exact Hfail].
+          + sb (exact T2). unfold tvr in *. subst. destruct (snd a); [apply sim_ret; reflexivity|exact Hfail].
+        - (* SRaise *) intros n ex ca Hs _ k. simpl in Hs. apply andb_true_iff in Hs; destruct Hs as [Hs1 Hs2].
+          Transparent rexec exec. cbn [rexec exec]. Opaque rexec exec.
+          sb (exact (ropt_sim rc0 ex Hs1)). sb (exact (ropt_sim rc0 ca Hs2)).
+          eapply sim_quiet_l with (a := tt).
+          { destruct (cov "_raise"); [|apply quiet_ret]. eapply quiet_bind; [apply quiet_announce|]. eapply quiet_bind; [apply quiet_ev|]. apply quiet_ret. }
+          cbv beta. destruct b as [e0|].
+          + sb (apply sim_prim_total). destruct b0 as [cv|]; [sb (apply sim_prim_total)|]; apply sim_raise.
+          + sb (apply sim_cur_exc). destruct b as [e|]; [apply sim_raise|apply sim_raise_builtin].
+        - (* STry *) intros n body IHb hs IHh orelse IHo final IHf Hs Hk k. simpl in Hs, Hk.
+          apply andb_true_iff in Hs; destruct Hs as [Hs123 Hs4]. apply andb_true_iff in Hs123; destruct Hs123 as [Hs12 Hs3].
+          apply andb_true_iff in Hs12; destruct Hs12 as [Hs1 Hs2].
+          apply andb_true_iff in Hk; destruct Hk as [Hk123 Hk4]. apply andb_true_iff in Hk123; destruct Hk123 as [Hk12 Hk3].
+          apply andb_true_iff in Hk12; destruct Hk12 as [Hk1 Hk2].
+          rewrite rexec_STry, exec_STry.
+          sb (apply sim_catch; eapply sim_quiet_l with (a := tt);
+              [destruct (cov "enter_try"); [eapply quiet_bind; [apply quiet_announce|]; eapply quiet_bind; [apply quiet_ev|]; apply quiet_ret|apply quiet_ret]
+              |apply IHb; assumption]).
+          sb (apply sim_catch;
+              match goal with Hr : rres _ ?ra ?rb |- _ =>
+                destruct ra as [[]|e1| | | | |], rb; cbn [rres] in Hr; try contradiction; subst;
+                [ apply sim_meq_r with (m2' := bind (exec_list callo bound orelse) (fun _ => ret tt));
+                  [symmetry; rewrite <- (bind_ret_r (exec_list callo bound orelse)) at 2; apply bind_cong; [reflexivity|intros []; reflexivity]|];
+                  sb (apply IHo; assumption); apply sim_quiet_only with (a := tt); [|reflexivity];
+                  destruct (cov "clean_exit_try"); [eapply quiet_bind; [apply quiet_announce|]; eapply quiet_bind; [apply quiet_ev|]; apply quiet_ret|apply quiet_ret]
+                | apply IHh; assumption
+                | apply sim_reraise; cbn; auto ..]
+              end).
+          sb (apply sim_catch; apply IHf; assumption).
+          match goal with Hr : rres _ ?ra ?rb |- sim _ (match ?ra with _ => _ end) _ =>
+            destruct ra as [[]| | | | | |], rb; cbn [rres] in Hr; try contradiction; subst; apply sim_reraise; cbn; auto end.
+        - (* SReturn *) intros n e Hs _ k. simpl in Hs.
+          Transparent rexec exec. cbn [rexec exec]. Opaque rexec exec.
+          sb (destruct e as [a|]; [exact (proj1 (TE a Hs rc0))|apply sim_ret; reflexivity]).
+          destruct (r_fn k) as [[f name]|]; [destruct (cov "_return")|]; qs; apply sim_const; reflexivity.
+        - (* SDef *) intros n fid name _ _ k. Transparent rexec exec. cbn [rexec exec]. Opaque rexec exec. apply sim_assign.
+        - (* Snil *) intros _ _ k. apply sim_ret. reflexivity.
+        - (* Scons *) intros s IHs r IHr Hs Hk k. simpl in Hs, Hk.
+          apply andb_true_iff in Hs; destruct Hs as [Hs1 Hs2]. apply andb_true_iff in Hk; destruct Hk as [Hk1 Hk2].
+          rewrite rexec_list_cons, exec_list_cons. sb (apply IHs; assumption). apply IHr; assumption.
+        - (* Hnil *) intros _ _ k tryn e. apply sim_raise.
+        - (* Hcons *) intros ty name body IHb rest IHr Hs Hk k tryn e. simpl in Hs, Hk.
+          apply andb_true_iff in Hs; destruct Hs as [Hs12 Hs3]. apply andb_true_iff in Hs12; destruct Hs12 as [Hs1 Hs2].
+          apply andb_true_iff in Hk; destruct Hk as [Hk12 Hk3]. apply andb_true_iff in Hk12; destruct Hk12 as [Hk1 Hk2].
+          rewrite rexec_handlers_cons, exec_handlers_cons.
+          assert (Hm : sim eq (bind (reval_opt rc0 ty) (fun tv => match tv with None => ret true | Some cls => prim (p_exc_match e cls) end))
+                              (match ty with None => ret true | Some te => bind (eval callo te) (fun cls => prim (p_exc_match e cls)) end)).
+          { destruct ty as [te|]; cbn [reval_opt]; [|stop; apply sim_ret; reflexivity]. simpl in Hs1. stop.
+            sb (exact (proj1 (TE te Hs1 rc0))). apply sim_prim. }
+          eapply sim_meq_l; [symmetry; apply bind_assoc|]. sb (exact Hm). destruct b; [|apply IHr; assumption].
+          sb (destruct name; [apply sim_assign|apply sim_ret; reflexivity]). sb (apply sim_push_exc).
+          sb (apply sim_catch; eapply sim_quiet_l with (a := tt); [|apply IHb; assumption]).
+          { destruct (cov "exception") eqn:C; [|apply quiet_ret].
+            cbn [negb orb] in Hk1. unfold bare_handler in Hk1. apply andb_true_iff in Hk1; destruct Hk1 as [K1 K2].
+            destruct ty; [discriminate K1|]. destruct name; [discriminate K2|]. cbn [reval_opt]. qq. }
+          sb (apply sim_pop_exc). sb (destruct name; [apply sim_unbind|apply sim_ret; reflexivity]). apply sim_reraise.
+          match goal with Hr : rres _ ?ra ?rb |- _ => destruct ra as [[]| | | | | |], rb; cbn [rres] in Hr; try contradiction; subst; cbn; auto end.
+      Qed.
+    End Transparency.
+
+
   End Ref.
 
   (* ---------------------------------------------------------------- functions, fuel, programs *)
@@ -2532,6 +3197,74 @@ Section Sem.
                                        (refine_fun fuel) tr_bool)) main Hs Ho {| r_loop := None; r_fn := None |}).
     Qed.
   End RunRefinement.
+
+  (* ================================================================ transparency at function and module level *)
+  Section RunTransparency.
+    Variable H : list string.
+    Variable funs : list fundef.
+    Hypothesis observing_all : Forall (observing earg) analyses.
+    Variable mkl : list val -> val.
+    Hypothesis mklist_pure : forall l w0, p_mklist l w0 = (mkl l, w0).
+    Hypothesis tuple_of_list_spec : forall l w0, p_tuple_of_list (mkl l) w0 = p_mktuple l w0.
+    Hypothesis truth_bool : forall b w0, p_truth (p_const (KBool b)) w0 = (POk b, w0).
+
+    Definition fun_tk (fd : fundef) : bool := src_ss (f_body fd) && tk_ss H (f_body fd).
+    Hypothesis funs_tk : forallb fun_tk funs = true.
+
+    Lemma sim_push_frame fd args : sim eq (push_frame fd args) (push_frame fd args).
+    Proof.
+      intros s1 s2 Hb. pose proof Hb as [Hw [Hg [Hf He]]]. unfold push_frame.
+      destruct (Nat.eqb (length args) (length (f_params fd))).
+      - split; [reflexivity|repeat split; cbn; congruence].
+      - apply (sim_raise_builtin eq "TypeError" "wrong number of arguments" s1 s2 Hb).
+    Qed.
+    Lemma sim_pop_frame : sim eq pop_frame pop_frame.
+    Proof. intros s1 s2 [Hw [Hg [Hf He]]]. split; [reflexivity|repeat split; cbn; congruence]. Qed.
+
+    Ltac qq := repeat first [ apply quiet_ret | eapply quiet_bind; [first [apply quiet_announce|apply quiet_ev|apply quiet_notify|apply quiet_ret]; assumption|] ].
+
+    Theorem transp_fun : forall fuel fid args, sim eq (rrun_fun funs H fuel fid args) (run_fun funs fuel fid args).
+    Proof.
+      induction fuel as [|f IH]; intros fid args; [apply sim_const; exact I|].
+      cbn [run_fun rrun_fun]. destruct (nth_error funs fid) as [fd|] eqn:E; [|apply sim_stuck].
+      assert (Hfd : fun_tk fd = true).
+      { apply nth_error_In in E. rewrite forallb_forall in funs_tk. apply funs_tk; exact E. }
+      unfold fun_tk in Hfd. apply andb_true_iff in Hfd; destruct Hfd as [Hs Hk]. cbv zeta.
+      eapply sim_bind; [apply sim_push_frame|intros ? ? _].
+      eapply sim_bind with (R := rres eq).
+      - apply sim_catch.
+        eapply sim_quiet_l with (a := tt); [destruct (cov H "function_enter" || cov H "implicit_return"); qq|]. cbv beta.
+        apply sim_meq_r with (m2' := bind (exec_list (run_fun funs f) f (f_body fd)) (fun _ => ret tt)).
+        { symmetry. rewrite <- (bind_ret_r (exec_list (run_fun funs f) f (f_body fd))) at 2. apply bind_cong; [reflexivity|intros []; reflexivity]. }
+        eapply sim_bind; [exact (proj1 (proj2 (transp_stmt H (rrun_fun funs H f) f observing_all mkl mklist_pure tuple_of_list_spec truth_bool (run_fun funs f) IH)) (f_body fd) Hs Hk _)|].
+        intros ? ? _. apply sim_quiet_only with (a := tt); [|reflexivity].
+        destruct (cov H "function_enter" || cov H "implicit_return"); qq.
+      - intros r1 r2 Hr. eapply sim_bind; [apply sim_pop_frame|intros ? ? _].
+        destruct r1 as [[]|e| | |v| |y], r2; cbn [rres] in Hr; try contradiction; subst;
+          first [apply sim_ret; reflexivity | apply sim_stuck | apply sim_const; cbn; auto].
+    Qed.
+
+    Theorem transp_module fuel wrapped main :
+      src_ss main = true -> tk_ss H main = true ->
+      sim eq (rrun_module funs H fuel wrapped main) (run_module funs fuel false main).
+    Proof.
+      intros Hs Hk. unfold rrun_module, run_module, end_execution.
+      eapply sim_quiet_l with (a := tt); [destruct wrapped; qq|]. cbv beta.
+      eapply sim_meq_r; [apply bind_ret_l|]. cbv beta.
+      eapply sim_bind with (R := rres eq).
+      - apply sim_catch.
+        exact (proj1 (proj2 (transp_stmt H (rrun_fun funs H fuel) fuel observing_all mkl mklist_pure tuple_of_list_spec truth_bool (run_fun funs fuel) (transp_fun fuel))) main Hs Hk _).
+      - intros r1 r2 Hr.
+        destruct r1 as [[]|e| | |v| |y], r2; cbn [rres] in Hr; try contradiction; subst; cbn [andb].
+        all: try (eapply sim_quiet_l with (a := tt); [destruct wrapped; qq|]; cbv beta; eapply sim_meq_r; [apply bind_ret_l|]; cbv beta; apply sim_reraise; cbn; auto).
+        destruct (wrapped && p_is_exception e0).
+        + eapply sim_quiet_l with (a := None); [apply quiet_notify; assumption|]. cbv beta.
+          eapply sim_quiet_l with (a := None); [apply quiet_notify; assumption|]. cbv beta.
+          eapply sim_quiet_l with (a := tt); [qq|]. cbv beta. eapply sim_meq_r; [apply bind_ret_l|]. apply sim_raise.
+        + eapply sim_quiet_l with (a := tt); [destruct wrapped; qq|]. cbv beta. eapply sim_meq_r; [apply bind_ret_l|]. apply sim_raise.
+    Qed.
+  End RunTransparency.
+
 
 End Sem.
 
